@@ -8,10 +8,17 @@
   read becomes which secret in the real code.
 -/
 import Saltpack.Proofs.Calls
+import Saltpack.Gen.Inventory
 import Saltpack.Toy
 
 namespace Saltpack.Props.C18
 open Saltpack Saltpack.Proofs
+
+/-- **Randomness inventory** (regenerated from /repo's source on every run): the
+    only functions that read `crypto/rand.Reader` — the full-read wrapper
+    `csprngRead` (payload keys, signature nonces), the two shuffles, and key
+    generation in `basic`. -/
+theorem C18_rand_readers : Gen.randReaders = ["basic.Keyring.GenerateSigningKey", "basic.generateBoxKey", "sp.csprngRead", "sp.shuffleEncryptReceivers", "sp.shuffleSigncryptReceivers"] := rfl
 
 /-- a full read (`csprngReadFull`) returns exactly the bytes the source
     delivered — `n` of them — and leaves a suffix of the source: consecutive
